@@ -513,7 +513,7 @@ def c09(chk):
         raise ToolError("the unrepaired rollback design (reinsert) should violate AllOrNothing — the invariant is vacuous")
     # the key of the key-id store: MethodDigest depends on (fragment, key material) only -- MethodDigest.tla
     md = chk.mc("MethodDigest", "MethodDigest_%s.cfg" % chk.tier, workers=4, timeout=300, heap="2g")
-    chk.replay(md["cases_file"], tag=".md", prop_driver="MD", timeout=1200, vacuity=False)
+    chk.replay(md["cases_file"], tag=".md", prop_driver="MD", timeout=1200, vacuity=False, extended=True)
     # composition: histories of generate / purge / issue / validate without faults -- document, key store and key-id
     # store stay in step (judged here); validation verdicts over the same histories are judged by the C02 check
     lifecycle_stage(chk, r"lifecycle/(generate|purge|issue|attach|detach|panic|[a-z]+/inconsistent_state)")
@@ -758,6 +758,9 @@ def c02(chk):
     r = chk.mc("CredentialValidation", "CredentialValidation_%s.cfg" % chk.tier, workers=4, timeout=900, heap="6g")
     chk.replay(r["cases_file"], timeout=7000)
     chk.canary_cases(r["cases_file"], flip_validation_case)
+    # beyond the list: the domain-linkage validator, which is built on this credential validator (DomainLinkage.tla)
+    dl = chk.mc("DomainLinkage", "DomainLinkage_%s.cfg" % chk.tier, workers=4, timeout=300, heap="2g")
+    chk.replay(dl["cases_file"], tag=".dl", prop_driver="DL", timeout=1200, vacuity=False, extended=True)
     # composition: earlier tokens validated against the document as it is NOW, over histories of generate / purge /
     # rotate / attach / detach / revoke / unrevoke (Lifecycle.tla); this check judges the validation verdicts
     lifecycle_stage(chk, r"lifecycle/(validate|panic)")
